@@ -58,6 +58,7 @@ def cases(tier, seed):
         spec = gen.make_spec(rng, D=D, geom=geom, x0mode=x0mode, land=land,
                              where=where, mode=mode, cons=cons, options=opts, max_fun_evals=int(rng.choice([30, 50, 80, 100])))
         out.append({"spec": spec, "second_run": bool(rng.random() < 0.2)})
+    out += C.option_variation_slice("C01", tier, seed)
     return out
 
 
